@@ -155,7 +155,7 @@ theorem C11_unscheduled_no_assignment (cfg : Config) (st : State) (ρ : Env) (ca
   have hT : Sat ρ (st.taskAsserts t) := fun a ha => hρ a (mem_init_task ht ha)
   -- the precise parking point: start = end = -(num0+1)
   have hstart : t.startV ρ = -((t.num0 : Int) + 1) ∧ t.endV ρ = -((t.num0 : Int) + 1) := by
-    have hSA := (Sat_taskAsserts_init hT).2
+    have hSA := Sat_taskAsserts_init hT
     unfold Task.setAssertions at hSA
     simp only [hopt, if_true] at hSA
     have h1 := hSA _ (List.mem_cons_self ..)
